@@ -365,7 +365,7 @@ func c17Replay(args []string) int {
 	defer os.RemoveAll(tmpRoot)
 
 	// the derived state: real FromAST(S) against the model's Derive(S)
-		schemas0, _ := unprojSchemas(any(S))
+	schemas0, _ := unprojSchemas(any(S))
 	realB0 := normJSON(projBuilders((&verifapi.BuilderGenerator{}).FromAST(schemas0)))
 	b0Agrees := canonJ(any(realB0)) == canonJ(any(modelB0))
 
